@@ -168,7 +168,10 @@ func (d *Decoder) readStruct() (interface{}, error) {
 	case dateTag(tag):
 		return d.readDate(int32(tag))
 	case tag == _objectDefTag:
-		return d.readObjectDef()
+		if err := d.readObjectDef(); err != nil {
+			return nil, err
+		}
+		return d.readStruct()
 	case objectLenTag(tag):
 		return d.ReadLenTagObject(tag)
 	case tag == _objectTag:
@@ -215,7 +218,10 @@ func (d *Decoder) ReadData() (interface{}, error) {
 	case tag == _mapUntypedTag:
 		return d.readUntypedMap()
 	case tag == _objectDefTag:
-		return d.readObjectDef()
+		if err := d.readObjectDef(); err != nil {
+			return nil, err
+		}
+		return d.ReadData()
 	case objectLenTag(tag):
 		return d.ReadLenTagObject(tag)
 	case tag == _objectTag:
